@@ -155,7 +155,7 @@ theorem scanF_step (t : FTok) (R : Text) (h : TokOK t R) (f : Nat) (hf : (t.rend
       simp only [FTok.render, List.cons_append]
       rw [scanF_cons]
       by_cases hpar : R.head? = some '('
-      · simp [hc.1, hc.2.1, hcw, hcut.1, hcut.2, h3, hpar]
+      · simp [hc.1, hc.2.1, hcw, hcut.1, hcut.2, hpar]
       · simp [hc.1, hc.2.1, hcw, hcut.1, hcut.2, h3, hpar, h4]
   | pfxWord c w _ h1 =>
     cases f with
